@@ -1,6 +1,59 @@
 import Driver.Common
+import Rtp.Model.VLA
+import Rtp.Pred.C19
 namespace Rtp.Kinds.Vla
-open Rtp Rtp.Proto
+open Rtp Rtp.Proto Rtp.Spec.VlaSpec Rtp.Model.Vla Rtp.Pred.C19
 
-def handlers : List (String × Handler) := []
+/-- `<stream> <spatial> <k> rate* <width> <height> <fps>` -/
+def rdLayer : Rd Layer := do
+  let s ← Rd.int; let k ← Rd.int
+  let rates ← Rd.list Rd.int
+  let w ← Rd.int; let h ← Rd.int; let f ← Rd.int
+  pure { stream := s, spatial := k, rates := rates, width := w, height := h, fps := f }
+
+/-- `<rid> <count> <hasRes> <n> layer*` -/
+def rdVLA : Rd VLA := do
+  let rid ← Rd.int; let count ← Rd.int; let hr ← Rd.bool
+  let ls ← Rd.list rdLayer
+  pure { rid := rid, count := count, layers := ls, hasRes := hr }
+
+/-- `ok <bytes>` | `err <kind>` | `panic` -/
+def rdMRes : Rd MRes := do
+  let t ← Rd.tok
+  match t with
+  | "ok" => do let b ← Rd.bytes; pure (.ok b)
+  | "err" => do let k ← Rd.tok; pure (.err (VErr.ofName k))
+  | "panic" => pure .panic
+  | _ => Rd.fail
+
+/-- `ok <n> <vla>` | `fail <n> <kind>` | `panic` -/
+def rdDRes : Rd DRes := do
+  let t ← Rd.tok
+  match t with
+  | "ok" => do let n ← Rd.nat; let v ← rdVLA; pure (.ok n v)
+  | "fail" => do let n ← Rd.nat; let k ← Rd.tok; pure (.fail n (VErr.ofName k))
+  | "panic" => pure .panic
+  | _ => Rd.fail
+
+def rdRtObs : Rd RtObs := do
+  let e ← rdMRes
+  let d ← Rd.opt rdDRes
+  pure { enc := e, dec := d }
+
+/-- `c19.rt <vla> <receiver> => <MRes> <opt DRes>` -/
+def rt : Handler :=
+  mkHandler (do let v ← rdVLA; let r ← rdVLA; pure (v, r)) rdRtObs
+    (fun (v, r) => rtModel v r)
+    (fun (v, r) o => Rtp.Pred.C19.rt v r o)
+    (fun (v, _) => decide v.WF)
+    (fun (v, _) _ => if bigRate v then some "c19_bitrate_2p56" else none)
+
+/-- `c19.dec <receiver> <bytes> => <DRes>` -/
+def dec : Handler :=
+  mkHandler (do let r ← rdVLA; let b ← Rd.bytes; pure (r, b)) rdDRes
+    (fun (r, b) => unmarshal r b)
+    (fun (_, b) o => Rtp.Pred.C19.dec b o)
+
+def handlers : List (String × Handler) :=
+  [("c19.rt", rt), ("c19.rej", rt), ("c19.dec", dec), ("c19.dec2", dec)]
 end Rtp.Kinds.Vla
